@@ -45,7 +45,7 @@ MECHANISMS = [
     (_PI, 'LogicalRecordIndex.get_file_logical_data_at_position'),
 ]
 REQUIRED_MONITORS = ['fetch_vs_model', 'read_containment', 'index_vs_model', 'sequential_pass', 'exhaustive_pairs', 'earlier_results_unchanged',
-                     'index_from_path',
+                     'index_from_path', 'index_reloaded_from_pickle',
                      'contract:FileRead.get_file_logical_data', 'contract:FileRead.seek_next_header',
                      'contract:FileRead.read_full_logical_data', 'contract:FileLogicalData.invariant']
 MIN_NONTRIVIAL = {'quick': 15000, 'thorough': 1000000}
@@ -546,6 +546,28 @@ class Driver:
                     ops.append((how, i, o, ln))
                     self.fetch(idx, None, data, model, i, o, ln, how, ops)
                     rec.add('fetches_from_a_path_index')
+                # the index saved and reloaded (what IndexPickle does: __getstate__ drops the open file, __setstate__ makes a new reader
+                # from the path): the entries are the same and fetches through the reloaded index give the written payloads
+                import pickle
+                blob = pickle.dumps(idx)
+            idx2 = pickle.loads(blob)
+            rec.mon('index_reloaded_from_pickle')
+            ops.append(('pickle-reload',))
+            if self.check_index(idx2, data, model, tag='index reloaded from a pickle'):
+                idx2.rp66v1_file._enter()
+                try:
+                    for _ in range(max(4, n_ops // 3)):
+                        i = rng.randrange(n)
+                        L = len(model.records[i].lr.payload)
+                        if rng.random() < 0.4:
+                            o, ln, how = 0, -1, 'default'
+                        else:
+                            o, ln, how = rng.randrange(0, L + 2), rng.choice([-1, 0, 1, L, rng.randrange(0, L + 2)]), rng.choice(['args', 'pos'])
+                        ops.append((how, i, o, ln))
+                        self.fetch(idx2, None, data, model, i, o, ln, how, ops)
+                        rec.add('fetches_from_a_reloaded_index')
+                finally:
+                    idx2._exit()
         except Exception as e:
             self.violation('index_vs_model', 'raised', 'index from a path raised %s: %s' % (type(e).__name__, e), self.base_witness(data, model, None, ops), exc=e)
 
